@@ -69,11 +69,21 @@ func (t *Thread) chanOp(o *op) {
 			po.chosen = a.pcase
 			po.done = true
 			o.chosen = a.caseIdx
+			if s := cs; s != nil && len(s.watch) > 0 {
+				if c.send {
+					s.notifyWatch(c.chid, c.sendVal)
+				} else {
+					s.notifyWatch(c.chid, pc.sendVal)
+				}
+			}
 			return
 		}
 		if c.send {
 			if c.trySend() {
 				o.chosen = a.caseIdx
+				if s := cs; s != nil && len(s.watch) > 0 {
+					s.notifyWatch(c.chid, c.sendVal)
+				}
 				return
 			}
 			continue
@@ -175,5 +185,5 @@ func Select(site string, hasDefault bool, cases ...*selCase) (int, *SelResult) {
 	return o.chosen, &SelResult{o.recvV, o.recvOK}
 }
 
-func SelVal[T any](ch <-chan T, r *SelResult) T           { return conv[T](r.v) }
+func SelVal[T any](ch <-chan T, r *SelResult) T          { return conv[T](r.v) }
 func SelVal2[T any](ch <-chan T, r *SelResult) (T, bool) { return conv[T](r.v), r.ok }
